@@ -222,3 +222,114 @@ Proof.
   rewrite (si_mk _ _ _ _ pa_factor). f_equal. rewrite Vep, Vcp. unfold lit. cbn [fst]. change (@mul RA) with Rmult. change (@sqrtn RA) with sqrt.
   unfold Q2R; cbn. toR. lra.
 Qed.
+
+Lemma pydiv_R (x y z : R) : @pydiv RA x y = Ok z -> y <> 0 /\ z = x / y.
+Proof.
+  unfold pydiv. change (@eqb RA) with Reqb. unfold Reqb. change (@zero RA) with 0.
+  destruct (Req_EM_T y 0) as [E|E]; [discriminate|]. intros H; injection H as <-. split; [exact E|reflexivity].
+Qed.
+Lemma rad_factor : @factor RA GEN KAngle "rad" = Ok 1.
+Proof. cbn. f_equal. unfold Q2R; cbn; lra. Qed.
+
+(** the transverse pressure angle the HelicalGear constructor stores: atan(tan 20deg / cos beta), an Angle in rad *)
+Lemma transverse_pa_si (g : @gear RA) (hx tpa : rq) sh : g_helix g = Some hx -> base_kind (qk hx) = KAngularPosition -> si hx = Ok sh ->
+  transverse_pa g = Ok tpa ->
+  cos sh <> 0 /\ qk tpa = KAngle /\ si tpa = Ok (atan (tan (20 * (PI / 180)) / cos sh)).
+Proof.
+  intros Hh Hk Hs H. unfold transverse_pa, bind in H. rewrite Hh in H. cbn [the] in H.
+  destruct (qtan PA20) as [t|] eqn:Et; [|discriminate]. rewrite (qtan_si (@PA20 RA) _ _ eq_refl Et pa20_si) in *.
+  destruct (qcos hx) as [c|] eqn:Ec; [|discriminate]. rewrite (qcos_si hx _ _ Hk Ec Hs) in *.
+  destruct (pydiv _ _) as [x|] eqn:Ex; [|discriminate]. destruct (pydiv_R _ _ _ Ex) as (Hc & ->).
+  apply q_new_eq in H. subst tpa. split; [exact Hc|]. split; [reflexivity|].
+  rewrite (si_mk _ _ _ _ rad_factor). f_equal. change (@fatan RA) with atan. lra.
+Qed.
+
+(** contact stress of a helical gear against a helical or spur mate: the transverse pressure angle alpha_t = atan(tan 20deg / cos beta)
+    replaces 20 deg and the face width is b / cos beta *)
+Theorem contact_stress_helical_doc (g mt : @gear RA) r (ft S m1 m2 fw e1 e2 hx : rq) F sm1 sm2 sb E1 E2 sh :
+  g_kind g = EHelical -> (g_kind mt = ESpur \/ g_kind mt = EHelical) -> r <> None ->
+  g_module g = Some m1 -> g_module mt = Some m2 -> g_face g = Some fw -> g_emod g = Some e1 -> g_emod mt = Some e2 -> g_helix g = Some hx ->
+  qk m1 = KLength -> qk m2 = KLength -> qk fw = KLength -> qk e1 = KStress -> qk e2 = KStress -> qk ft = KForce ->
+  base_kind (qk hx) = KAngularPosition ->
+  si m1 = Ok sm1 -> si m2 = Ok sm2 -> si fw = Ok sb -> si e1 = Ok E1 -> si e2 = Ok E2 -> si ft = Ok F -> si hx = Ok sh ->
+  contact_stress g r (Some mt) ft = Ok S ->
+  let d1 := IZR (g_n g) * sm1 in let d2 := IZR (g_n mt) * sm2 in let al := atan (tan (20 * (PI / 180)) / cos sh) in
+  cos sh <> 0 /\ qk S = KStress /\
+  si S = Ok (131461 / 500000 * sqrt ((2 * E1 * (E2 / (E1 + E2))) * (F / cos al / (sb / cos sh * (sin al / 2 * d1 * (d2 / (d1 + d2))))))).
+Proof.
+  intros Hk Hkm Hr Hm1 Hm2 Hf He1 He2 Hh k1 k2 kf ke1 ke2 kft kh s1 s2 ssb sE1 sE2 sF sH H.
+  unfold contact_stress, bind in H. destruct r as [role|]; [|contradiction]. rewrite Hm2, He2, He1, Hf in H. cbn [the] in H.
+  assert (Hd2 : ref_diameter mt = q_rmul (of_Z (g_n mt)) m2).
+  { unfold ref_diameter. destruct Hkm as [-> | ->]; rewrite Hm2; reflexivity. }
+  assert (Hd1 : ref_diameter g = q_rmul (of_Z (g_n g)) m1) by (unfold ref_diameter; rewrite Hk, Hm1; reflexivity).
+  rewrite Hd1, Hd2, Hk, Hh in H. cbn [the] in H.
+  destruct (q_rmul (of_Z (g_n mt)) m2) as [dm|] eqn:Edm; [|discriminate]. destruct (q_rmul_si _ _ _ _ Edm s2) as (kdm & _ & sdm).
+  destruct (q_rmul (of_Z (g_n g)) m1) as [d|] eqn:Ed; [|discriminate]. destruct (q_rmul_si _ _ _ _ Ed s1) as (kd & _ & sd).
+  destruct (q_add e1 e2) as [es|] eqn:Ees; [|discriminate]. destruct (q_add_si _ _ _ _ _ Ees sE1 sE2) as (_ & _ & ses).
+  destruct (q_ratio e2 es) as [k|] eqn:Ek; [|discriminate]. destruct (q_ratio_si _ _ _ _ _ Ek sE2 ses) as (_ & ->).
+  destruct (q_rmul (of_Z 2) e1) as [e2x|] eqn:Ee2; [|discriminate]. destruct (q_rmul_si _ _ _ _ Ee2 sE1) as (ke2x & _ & se2x).
+  destruct (q_muln e2x _) as [eeq|] eqn:Eeq; [|discriminate]. destruct (q_muln_si _ _ _ _ Eeq se2x) as (keeq & _ & seeq).
+  destruct (transverse_pa g) as [tpa|] eqn:Etpa; [|discriminate].
+  destruct (transverse_pa_si g hx tpa sh Hh kh sH Etpa) as (Hcs & ktpa & stpa).
+  assert (ktpa' : base_kind (qk tpa) = KAngularPosition) by (rewrite ktpa; reflexivity).
+  destruct (qsin tpa) as [sn|] eqn:Esn; [|discriminate]. rewrite (qsin_si tpa _ _ ktpa' Esn stpa) in *.
+  destruct (qcos tpa) as [cs|] eqn:Ecs; [|discriminate]. rewrite (qcos_si tpa _ _ ktpa' Ecs stpa) in *.
+  destruct (q_add d dm) as [ds|] eqn:Eds; [|discriminate]. destruct (q_add_si _ _ _ _ _ Eds sd sdm) as (_ & _ & sds).
+  destruct (q_ratio dm ds) as [k2'|] eqn:Ek2; [|discriminate]. destruct (q_ratio_si _ _ _ _ _ Ek2 sdm sds) as (_ & ->).
+  destruct (q_rmul _ d) as [i1|] eqn:Ei1; [|discriminate]. destruct (q_rmul_si _ _ _ _ Ei1 sd) as (ki1 & _ & si1).
+  destruct (q_muln i1 _) as [ics|] eqn:Eics; [|discriminate]. destruct (q_muln_si _ _ _ _ Eics si1) as (kics & _ & sics).
+  destruct (q_divn ft _) as [f1|] eqn:Ef1; [|discriminate]. destruct (q_divn_si _ _ _ _ Ef1 sF) as (_ & kf1 & _ & sf1).
+  destruct (qcos hx) as [ch|] eqn:Ech; [|discriminate]. rewrite (qcos_si hx _ _ kh Ech sH) in *.
+  destruct (q_divn fw _) as [w|] eqn:Ew; [|discriminate]. destruct (q_divn_si _ _ _ _ Ew ssb) as (_ & kw & _ & sw).
+  destruct (q_mulq w ics) as [ar|] eqn:Ear; [|discriminate]. destruct (q_mulq_si _ _ _ _ _ Ear sw sics) as (kar & sar).
+  destruct (q_divq f1 ar) as [cp|] eqn:Ecp; [|discriminate]. destruct (q_divq_si _ _ _ _ _ Ecp sf1 sar) as (_ & kcp & scp).
+  rewrite kw, kf, kics, ki1, kd, k1 in kar. cbn in kar. injection kar as kar.
+  rewrite kf1, kft, <- kar in kcp. cbn in kcp. injection kcp as kcp.
+  destruct (q_to eeq "Pa") as [ep|] eqn:Eep; [|discriminate]. destruct (q_to_si _ _ _ _ Eep seeq) as (kep & uep & sep).
+  destruct (q_to cp "Pa") as [cpp|] eqn:Ecpp; [|discriminate]. destruct (q_to_si _ _ _ _ Ecpp scp) as (kcpp & ucpp & scpp).
+  assert (Vep : qv ep = 2 * E1 * (E2 / (E1 + E2))).
+  { unfold si, bind in sep. rewrite kep, keeq, ke2x, ke1, uep in sep. change G with GEN in sep. rewrite pa_factor in sep. injection sep as sep. toR. lra. }
+  set (al := atan (tan (20 * (PI / 180)) / cos sh)) in *.
+  assert (Vcp : qv cpp = F / cos al / (sb / cos sh * (sin al / 2 * (IZR (g_n g) * sm1) * (IZR (g_n mt) * sm2 / (IZR (g_n g) * sm1 + IZR (g_n mt) * sm2))))).
+  { unfold si, bind in scpp. rewrite kcpp, <- kcp, ucpp in scpp. change G with GEN in scpp. rewrite pa_factor in scpp. injection scpp as scpp.
+    change (@div RA) with Rdiv in *. change (@of_Z RA 2) with (IZR 2) in *. change (@of_Z RA (g_n g)) with (IZR (g_n g)) in *. change (@of_Z RA (g_n mt)) with (IZR (g_n mt)) in *. toR. lra. }
+  apply q_new_eq in H. subst S. cbn zeta. split; [exact Hcs|]. split; [reflexivity|].
+  rewrite (si_mk _ _ _ _ pa_factor). f_equal. rewrite Vep, Vcp. unfold lit. cbn [fst]. change (@mul RA) with Rmult. change (@sqrtn RA) with sqrt.
+  unfold Q2R; cbn. toR. lra.
+Qed.
+
+(** bending stress of a worm wheel: F_t / (p_n * b_eff) / Y with the normal pitch p_n = pi d_w sin(beta_w) / z and the effective face
+    width b_eff = min(b, 0.67 d_w) -- the minimum decided by the quantity comparison [q_lt] (C05: the SI ordering outside the
+    tolerance band) *)
+Theorem bending_stress_wheel_doc (g mt : @gear RA) role (ft S dw hw fw : rq) Y F sdw shw sb :
+  g_kind g = EWheel -> lewis_factor g = Ok Y ->
+  g_dref mt = Some dw -> g_helix mt = Some hw -> g_face g = Some fw ->
+  qk dw = KLength -> qk fw = KLength -> qk ft = KForce -> base_kind (qk hw) = KAngularPosition ->
+  si dw = Ok sdw -> si hw = Ok shw -> si fw = Ok sb -> si ft = Ok F ->
+  bending_stress g (Some role) (Some mt) ft = Ok S ->
+  exists lim lt, q_rmul (@k067 RA) dw = Ok lim /\ si lim = Ok (67 / 100 * sdw) /\ q_lt lim fw = Ok lt /\
+    qk S = KStress /\
+    si S = Ok (F / (PI * sdw * sin shw / IZR (g_n g) * (if lt then 67 / 100 * sdw else sb)) / Y).
+Proof.
+  intros Hk HY Hd Hh Hf kd kf kft kh sd sh ssb sF H. unfold bending_stress, bind in H. rewrite HY, Hk, Hd, Hh, Hf in H. cbn [the] in H.
+  destruct (q_rmul pi dw) as [a|] eqn:Ea; [|discriminate]. destruct (q_rmul_si _ _ _ _ Ea sd) as (ka & _ & sa).
+  destruct (qsin hw) as [s|] eqn:Es; [|discriminate]. rewrite (qsin_si hw _ _ kh Es sh) in *.
+  destruct (q_muln a _) as [b|] eqn:Eb; [|discriminate]. destruct (q_muln_si _ _ _ _ Eb sa) as (kb & _ & sb').
+  destruct (q_divn b _) as [np|] eqn:Enp; [|discriminate]. destruct (q_divn_si _ _ _ _ Enp sb') as (_ & knp & _ & snp).
+  destruct (q_rmul k067 dw) as [lim|] eqn:El; [|discriminate]. destruct (q_rmul_si _ _ _ _ El sd) as (kl & _ & sl).
+  destruct (q_lt lim fw) as [lt|] eqn:Elt; [|discriminate].
+  exists lim, lt. split; [first [reflexivity | exact El]|].
+  assert (sl' : si lim = Ok (67 / 100 * sdw)).
+  { rewrite sl. f_equal; unfold k067; change (@lit RA (67 # 100) _) with (Q2R (67 # 100)); unfold Q2R; cbn; toR; lra. }
+  split; [exact sl'|]. split; [exact Elt|].
+  set (eff := if lt then lim else fw) in *.
+  assert (seff : si eff = Ok (if lt then 67 / 100 * sdw else sb)) by (unfold eff; destruct lt; assumption).
+  assert (keff : qk eff = KLength) by (unfold eff; destruct lt; [rewrite kl; exact kd|exact kf]).
+  destruct (q_mulq np eff) as [ar|] eqn:Ear; [|discriminate]. destruct (q_mulq_si _ _ _ _ _ Ear snp seff) as (kar & sar).
+  destruct (q_divq ft ar) as [st|] eqn:Est; [|discriminate]. destruct (q_divq_si _ _ _ _ _ Est sF sar) as (_ & kst & sst).
+  destruct (q_divn_si _ _ _ _ H sst) as (_ & kS & _ & sS).
+  rewrite knp, kb, ka, kd, keff in kar. cbn in kar. injection kar as kar.
+  rewrite kft, <- kar in kst. cbn in kst. injection kst as kst.
+  split; [congruence|].
+  rewrite sS. f_equal; try (change (@pi RA) with PI; change (@of_Z RA (g_n g)) with (IZR (g_n g)); toR; reflexivity).
+Qed.
